@@ -111,7 +111,8 @@ Definition step_body (rec : bool -> list instr -> cfg -> outcome) (skipb : bool)
               end
           | FReturn => probes fn_exit c (fun c => OReturn c)
           | FUnreachable => probes fn_exit c (fun c => OTrap c)
-          | FBrOn _ _ | FRetCall _ | FThrow _ | FBlock _ | FLoop _ | FIf _ | FElse | FEnd => OUnsupported
+          | FRetCall _ | FThrow _ => probes fn_exit c (fun _ => OUnsupported)   (* exit probes run; the transfer itself is not modelled *)
+          | FBrOn _ _ | FBlock _ | FLoop _ | FIf _ | FElse | FEnd => OUnsupported
           | _ => match exec_plain o c with
                  | ONormal c' => probes (f_after F) c' continue
                  | r => r
